@@ -90,7 +90,7 @@ func runOneVariant(self, id, patch string) variantResult {
 	ev := filepath.Join(tmp, "ev")
 	os.MkdirAll(ev, 0o755)
 	cmd := exec.Command(self, "check", id, "--tier", "quick")
-	cmd.Env = append(os.Environ(), "MIXVET_REPO="+scratch, "MIXVET_EVIDENCE="+ev, "MIXVET_NO_KNOWN=1")
+	cmd.Env = append(os.Environ(), "MIXVET_REPO="+scratch, "MIXVET_EVIDENCE="+ev)
 	var out bytes.Buffer
 	cmd.Stdout = &out
 	cmd.Stderr = &out
